@@ -161,6 +161,23 @@ def check(rec, chart, tm, ticks, rcase, style):
         if t % 5 == 0:
             harness.distract(rec)
         times[t] = us(be.timestamp_at_tick_no_optimize_return(t))
+    if len(ticks) % 3 == 0:
+        # the tempo map as seen through the copy protocols: one time function, not one per copy (a refusal to copy is skipped)
+        import copy
+        import pickle
+
+        for how, fn in (("copy.deepcopy", copy.deepcopy), ("a pickle round trip", lambda x: pickle.loads(pickle.dumps(x))), ("copy.copy", copy.copy)):
+            try:
+                dup = fn(be)
+            except Exception:  # noqa
+                continue
+            rec.ev()
+            rec.cls("copy_of_the_tempo_map_swept")
+            bad = next((t for t in ticks if us(dup.timestamp_at_tick_no_optimize_return(t)) != times[t]), None)
+            if bad is not None:
+                rec.violation("copy-differs", f"{how} of the chart's tempo map puts tick {bad} at {us(dup.timestamp_at_tick_no_optimize_return(bad))} us, the "
+                              f"chart itself at {times[bad]} us: events and queries of one chart disagree once a copy is in play", rcase, "copy-shows-other-times")
+                return
     # the dense ascending sweep, then sparse sub-sweeps (pairs far apart, straddling several tempo changes)
     order = list(ticks) + [None] + list(ticks[::7]) + [None] + list(ticks[3::23])
     for t in order:
